@@ -150,6 +150,86 @@ def parseRealm (lines : List Line) : Outcome Realm :=
   | .err e => .err e
   | .crash w => .crash w
 
+/-! ## the [realms] section: splitting it into realm blocks (`parseRealms`) -/
+
+/-- a line of the [realms] section as the outer loop sees it (comment stripped, trimmed): the features it
+    tests, the text before the first '=' (the realm name when the line opens a block), and the same raw
+    line as the block parser will see it -/
+structure OLine where
+  blank : Bool := false
+  hasOpen : Bool
+  hasEq : Bool
+  hasClose : Bool
+  name : Str := []
+  inner : Line
+  deriving Repr, DecidableEq
+
+/-- Go `lines[i:j]` for a slice of lines (capacity = length) -/
+def sliceLines (l : List OLine) (i j : Nat) : Outcome (List OLine) :=
+  if j > l.length then .crash "slice bounds out of range (high)"
+  else if i > j then .crash "slice bounds out of range (low > high)"
+  else .ok ((l.take j).drop i)
+
+structure OSt where
+  c : Nat := 0
+  start : Nat := 0
+  name : Str := []
+  realms : List (Str × Realm) := []
+  unsupported : Bool := false
+  deriving Repr, DecidableEq
+
+/-- one realm block handed to the block parser: an UnsupportedDirective is remembered and the realm kept,
+    any other error ends the parse -/
+def closeBlock (s : OSt) (block : List OLine) : Outcome OSt :=
+  match run step {} (block.map (·.inner)) with
+  | .ok st => .ok { s with realms := s.realms ++ [(s.name, finish st)], unsupported := s.unsupported || st.unsupported }
+  | .err e => .err e
+  | .crash w => .crash w
+
+/-- one iteration of the loop of `parseRealms` at line index `i`; `guarded` = the repaired code, which
+    takes the lines of the block only when the block spans more than one line -/
+def outerStep (guarded : Bool) (all : List OLine) (s : OSt) (i : Nat) (l : OLine) : Outcome OSt :=
+  if l.blank then .ok s
+  else
+    let opened : Outcome OSt :=
+      if l.hasOpen then
+        if !l.hasEq then .err "invalid-line"
+        else if s.c + 1 = 1 then .ok { s with c := s.c + 1, start := i, name := l.name }
+        else .ok { s with c := s.c + 1 }
+      else .ok s
+    match opened with
+    | .err e => .err e
+    | .crash w => .crash w
+    | .ok s1 =>
+      if l.hasClose then
+        if s1.c < 1 then .err "not-started"
+        else
+          let s2 := { s1 with c := s1.c - 1 }
+          if s2.c = 0 then
+            let block : Outcome (List OLine) :=
+              if guarded && !(decide (i > s2.start)) then .ok [] else sliceLines all (s2.start + 1) i
+            match block with
+            | .ok b => closeBlock s2 b
+            | .err e => .err e
+            | .crash w => .crash w
+          else .ok s2
+      else .ok s1
+
+def outerLoop (guarded : Bool) (all : List OLine) : OSt → Nat → List OLine → Outcome OSt
+  | s, _, [] => .ok s
+  | s, i, l :: ls =>
+    match outerStep guarded all s i l with
+    | .ok s' => outerLoop guarded all s' (i + 1) ls
+    | .err e => .err e
+    | .crash w => .crash w
+
+/-- `parseRealms`: the realms of the section in order, and whether an unsupported (v4) directive was met -/
+def parseRealms (guarded : Bool) (lines : List OLine) : Outcome (List (Str × Realm) × Bool) :=
+  match outerLoop guarded lines {} 0 lines with
+  | .ok s => if s.c ≠ 0 then .err "unpaired" else .ok (s.realms, s.unsupported)
+  | .err e => .err e
+  | .crash w => .crash w
+
 /-! ## host-to-realm resolution -/
 
 /-- a host name is its list of labels (`a.b.c` = ["a","b","c"]); the mapping keys are hosts
